@@ -546,6 +546,10 @@ func (trie *PatriciaTrie) put(curNode *PatriciaNode, key string, data types.Node
 					children: child.children,
 				}
 
+				// the old child stays alive in the views of other blocks: the new node must not share
+				// the backing array of its children with it
+				childNode.children = append([]*PatriciaNode(nil), child.children...)
+
 				node := &PatriciaNode{ // d#
 					key:      sub,
 					terminal: true,
